@@ -20,7 +20,7 @@ REF = os.path.join(V, "refimpl")
 WORK = os.environ.get("FQ_FUZZ_WORK", os.path.join(V, "work"))
 BIN = os.path.join(FUZZ, "target", "x86_64-unknown-linux-gnu", "release")
 ALNUM = b"0123456789ABCDEFGHIJKLMNOPQRSTUVWXYZ $%*+-./:"
-DICT = ['"\\xce\\xce\\xce\\xce"', '"\\x11\\x11\\x11\\x11"', '"\\xef\\xbb\\xbf"', '"\\xfe\\xff"', '"\\xff\\xfe"', '"\\x1b"', '"\\xec\\x11"', '"data:"', '";base64,"', '"&"', '"<"', '">"', '"\\""', '"\'"', '"&amp;"', '"#"', '"http://"', '"https://"', '"image/png"',
+DICT = ['"{0}"', '"{1}"', '"{2}"', '"{3}"', '"{}"', '"\\xce\\xce\\xce\\xce"', '"\\x11\\x11\\x11\\x11"', '"\\xef\\xbb\\xbf"', '"\\xfe\\xff"', '"\\xff\\xfe"', '"\\x1b"', '"\\xec\\x11"', '"data:"', '";base64,"', '"&"', '"<"', '">"', '"\\""', '"\'"', '"&amp;"', '"#"', '"http://"', '"https://"', '"image/png"',
         '"ffffff"', '"000000"', '"#ffffff"', '"#000000"', '"\\x09"', '"\\x0a"', '"\\x0d"', '"]]>"', '"utf8,"']
 
 
